@@ -644,12 +644,21 @@ func (g *CallGraph) propagate(f *ssa.Function, sum *Summary, cs *Summary, args [
 		default:
 			rs = RootSet{e.Root: true}
 		}
+		// an effect on "the map / slice I was handed" happens, seen from the caller, to the field the
+		// argument was loaded from
+		argField := ""
+		if e.Root.Kind == "param" && args != nil && e.Root.Idx < len(args) && e.Field == "" {
+			argField = fieldOf(args[e.Root.Idx])
+		}
 		for r := range rs {
 			if r.Kind == "fresh" {
 				continue
 			}
 			ne := e
 			ne.Root = r
+			if argField != "" {
+				ne.Field = argField
+			}
 			if _, ok := sum.Effects[ne.key()]; !ok {
 				sum.Effects[ne.key()] = ne
 			}
